@@ -233,6 +233,53 @@ fn p_c05() -> Profile {
     p
 }
 
+fn p_c16() -> Profile {
+    let mut p = Profile::base();
+    p.blob = Tri::Maybe;
+    p.blob_ingest = false;
+    p.filter_fn = Tri::Never;
+    p.min_ops = 4;
+    p.max_ops = 20;
+    p.w[W_WRITE] = 30;
+    p.w[W_BATCH] = 5;
+    p.w[W_FLUSH_ACTIVE] = 14;
+    p.w[W_FLUSH] = 3;
+    p.w[W_ROTATE] = 3;
+    p.w[W_LEVELED] = 8;
+    p.w[W_MAJOR] = 5;
+    p.w[W_MOVEDOWN] = 1;
+    p.w[W_PULLDOWN] = 2;
+    p.w[W_DROP_RANGE] = 4;
+    p.w[W_CLEAR] = 2;
+    p.w[W_INGEST] = 4;
+    p.w[W_REOPEN] = 1;
+    p.w[W_SNAP_OPEN] = 2;
+    p.w[W_SNAP_CLOSE] = 1;
+    p.w[W_CLOCK] = 0;
+    p
+}
+
+fn nt_c16(s: &Stats) -> bool {
+    s.get("fault_reported_by_operation") >= 1
+}
+
+fn p_c10() -> Profile {
+    let mut p = Profile::base();
+    p.blob = Tri::Maybe;
+    p.blob_ingest = false;
+    p.min_ops = 3;
+    p.max_ops = 16;
+    p.w[W_INGEST] = 3;
+    p.w[W_REOPEN] = 0;
+    p.w[W_CLOCK] = 0;
+    p.w[W_MAJOR] = 4;
+    p
+}
+
+fn nt_c10(s: &Stats) -> bool {
+    s.get("corrupt_nontrivial") >= 1
+}
+
 fn nt_c05(s: &Stats) -> bool {
     s.get("crash_images_with_pending_effects") >= 1
 }
@@ -396,6 +443,19 @@ pub fn all_props() -> Vec<PropDef> {
             technique: "deterministic simulation: recomputation of blob garbage from table scans",
         },
         PropDef {
+            id: "C10",
+            engine: EngineKind::Corrupt,
+            level: "fault_enumeration",
+            decisive: &["corrupt"],
+            quick_runs: 400,
+            thorough_runs: 600,
+            rule: "one run = one small tree (standard or blob, drawn block/index/filter/compression settings) built by a fault-free history and closed; one evaluation = one stored-byte fault (a single bit flip at a byte position, or one truncation, of one table / blob / version / current file) followed by a reopen with an empty cache and re-asking every question (get and size_of of every key, forward and backward scan, len, is_empty, at seqno MAX and at a mid seqno); each answer must be Err or the original answer. quick: every byte of `current` and v<N> (1 random bit), stratified positions (head, tail, 24 random) of tables and blob files, ~15 truncation lengths per file; thorough: every byte position of every file (all 8 bits for version files), every truncation length of small files. Outcomes classified same|error|panic|abort|WRONG; only WRONG is a violation. Non-trivial/distinct: attempts whose fault was noticed (outcome other than same).",
+            profile: p_c10,
+            nontrivial: nt_c10,
+            final_reclaim: false,
+            technique: "deterministic simulation: stored-byte fault enumeration with re-open",
+        },
+        PropDef {
             id: "C13",
             engine: EngineKind::Seq,
             level: "exploration",
@@ -433,6 +493,19 @@ pub fn all_props() -> Vec<PropDef> {
             nontrivial: nt_c15,
             final_reclaim: false,
             technique: "deterministic simulation: drop_range/clear history vs reference model + physical audit",
+        },
+        PropDef {
+            id: "C16",
+            engine: EngineKind::Fault,
+            level: "fault_enumeration",
+            decisive: &["fault", "point", "scan", "snapshot", "reopen"],
+            quick_runs: 1200,
+            thorough_runs: 5000,
+            rule: "one run = one history executed fault-free with the file-system calls of its flush/compaction/drop_range/clear/ingest operations counted (n), then re-executed from scratch once per chosen call index i with one fault armed there; one evaluation = one (history, i, kind) with kind in ENOSPC/EIO (must be reported or absorbed, reads unchanged, nothing left hidden, then either the same call succeeds on retry and the history continues against the model, or a reopen yields the state before or after the call) or short write/EINTR (must not fail the operation). quick: 10 sampled i per history; thorough: every i. Non-trivial/distinct: distinct (history, call site, fault kind) at which the fault fired.",
+            profile: p_c16,
+            nontrivial: nt_c16,
+            final_reclaim: false,
+            technique: "deterministic simulation: libc-level I/O error enumeration per operation",
         },
         PropDef {
             id: "C17",
